@@ -19,10 +19,10 @@ macro_rules! replay_map {
             pub use std::collections::$modname::{Entry, OccupiedEntry, VacantEntry};
             pub use super::$Map;
         }
-        impl<K: $($kb)*, V> Default for $Map<K, V> {
+        impl<K: $($kb)* + Clone, V> Default for $Map<K, V> {
             fn default() -> Self { Self::new() }
         }
-        impl<K: $($kb)*, V: Clone> Clone for $Map<K, V> {
+        impl<K: $($kb)* + Clone, V: Clone> Clone for $Map<K, V> {
             fn clone(&self) -> Self {
                 $Map {
                     inner: UnsafeCell::new(self.m().clone()),
@@ -36,7 +36,7 @@ macro_rules! replay_map {
                 unsafe { (*self.inner.get()).fmt(f) }
             }
         }
-        impl<K: $($kb)*, V> $Map<K, V> {
+        impl<K: $($kb)* + Clone, V> $Map<K, V> {
             pub fn new() -> Self {
                 $Map { inner: UnsafeCell::new(sc::$StdMap::new()), touched: UnsafeCell::new(sc::$StdSet::new()), havoc: false }
             }
@@ -62,38 +62,48 @@ macro_rules! replay_map {
             pub fn clear(&mut self) { self.havoc = false; self.m().clear(); self.t().clear(); }
             pub fn retain<F: FnMut(&K, &mut V) -> bool>(&mut self, f: F) { self.no_havoc(); self.m().retain(f) }
         }
-        impl<K: $($kb)*, V: Havoc> $Map<K, V> {
-            fn touch(&self, k: &K) {
+        impl<K: $($kb)* + Clone, V: Havoc> $Map<K, V> {
+            fn touch<Q>(&self, k: &Q)
+            where K: core::borrow::Borrow<Q>, Q: $($kb)* + ToOwned<Owned = K> + ?Sized,
+            {
                 if self.havoc && !self.t().contains(k) {
-                    self.t().insert(k.clone());
+                    self.t().insert(k.to_owned());
                     if any_bool() {
-                        self.m().insert(k.clone(), V::havoc());
+                        self.m().insert(k.to_owned(), V::havoc());
                     }
                 }
             }
-            pub fn get(&self, k: &K) -> Option<&V> { self.touch(k); self.m().get(k) }
-            pub fn get_mut(&mut self, k: &K) -> Option<&mut V> { self.touch(k); self.m().get_mut(k) }
-            pub fn contains_key(&self, k: &K) -> bool { self.touch(k); self.m().contains_key(k) }
+            pub fn get<Q>(&self, k: &Q) -> Option<&V>
+            where K: core::borrow::Borrow<Q>, Q: $($kb)* + ToOwned<Owned = K> + ?Sized,
+            { self.touch(k); self.m().get(k) }
+            pub fn get_mut<Q>(&mut self, k: &Q) -> Option<&mut V>
+            where K: core::borrow::Borrow<Q>, Q: $($kb)* + ToOwned<Owned = K> + ?Sized,
+            { self.touch(k); self.m().get_mut(k) }
+            pub fn contains_key<Q>(&self, k: &Q) -> bool
+            where K: core::borrow::Borrow<Q>, Q: $($kb)* + ToOwned<Owned = K> + ?Sized,
+            { self.touch(k); self.m().contains_key(k) }
             pub fn insert(&mut self, k: K, v: V) -> Option<V> { self.touch(&k); self.m().insert(k, v) }
-            pub fn remove(&mut self, k: &K) -> Option<V> { self.touch(k); self.m().remove(k) }
+            pub fn remove<Q>(&mut self, k: &Q) -> Option<V>
+            where K: core::borrow::Borrow<Q>, Q: $($kb)* + ToOwned<Owned = K> + ?Sized,
+            { self.touch(k); self.m().remove(k) }
             pub fn entry(&mut self, k: K) -> sc::$modname::Entry<'_, K, V> { self.touch(&k); self.m().entry(k) }
         }
-        impl<K: $($kb)*, V> IntoIterator for $Map<K, V> {
+        impl<K: $($kb)* + Clone, V> IntoIterator for $Map<K, V> {
             type Item = (K, V);
             type IntoIter = sc::$modname::IntoIter<K, V>;
             fn into_iter(self) -> Self::IntoIter { self.no_havoc(); self.inner.into_inner().into_iter() }
         }
-        impl<'a, K: $($kb)*, V> IntoIterator for &'a $Map<K, V> {
+        impl<'a, K: $($kb)* + Clone, V> IntoIterator for &'a $Map<K, V> {
             type Item = (&'a K, &'a V);
             type IntoIter = sc::$modname::Iter<'a, K, V>;
             fn into_iter(self) -> Self::IntoIter { self.iter() }
         }
-        impl<K: $($kb)*, V: Havoc> Extend<(K, V)> for $Map<K, V> {
+        impl<K: $($kb)* + Clone, V: Havoc> Extend<(K, V)> for $Map<K, V> {
             fn extend<T: IntoIterator<Item = (K, V)>>(&mut self, iter: T) {
                 for (k, v) in iter { self.insert(k, v); }
             }
         }
-        impl<K: $($kb)*, V: Havoc> FromIterator<(K, V)> for $Map<K, V> {
+        impl<K: $($kb)* + Clone, V: Havoc> FromIterator<(K, V)> for $Map<K, V> {
             fn from_iter<T: IntoIterator<Item = (K, V)>>(iter: T) -> Self {
                 let mut m = Self::new();
                 m.extend(iter);
@@ -103,8 +113,8 @@ macro_rules! replay_map {
     };
 }
 
-replay_map!(BTreeMap, BTreeMap, BTreeSet, btree_map, [Ord + Clone]);
-replay_map!(HashMap, HashMap, HashSet, hash_map, [core::hash::Hash + Eq + Clone]);
+replay_map!(BTreeMap, BTreeMap, BTreeSet, btree_map, [Ord]);
+replay_map!(HashMap, HashMap, HashSet, hash_map, [core::hash::Hash + Eq]);
 
 macro_rules! replay_set {
     ($Set:ident, $StdSet:ident, $modname:ident, [$($kb:tt)*]) => {
@@ -113,10 +123,10 @@ macro_rules! replay_set {
             touched: UnsafeCell<sc::$StdSet<K>>,
             havoc: bool,
         }
-        impl<K: $($kb)*> Default for $Set<K> {
+        impl<K: $($kb)* + Clone> Default for $Set<K> {
             fn default() -> Self { Self::new() }
         }
-        impl<K: $($kb)*> Clone for $Set<K> {
+        impl<K: $($kb)* + Clone> Clone for $Set<K> {
             fn clone(&self) -> Self {
                 $Set { inner: UnsafeCell::new(self.m().clone()), touched: UnsafeCell::new(self.t().clone()), havoc: self.havoc }
             }
@@ -126,7 +136,7 @@ macro_rules! replay_set {
                 unsafe { (*self.inner.get()).fmt(f) }
             }
         }
-        impl<K: $($kb)*> $Set<K> {
+        impl<K: $($kb)* + Clone> $Set<K> {
             pub fn new() -> Self {
                 $Set { inner: UnsafeCell::new(sc::$StdSet::new()), touched: UnsafeCell::new(sc::$StdSet::new()), havoc: false }
             }
@@ -140,34 +150,40 @@ macro_rules! replay_set {
             fn no_havoc(&self) {
                 assert!(!self.havoc, "vcoll: iteration over an unbounded symbolic map is not modelled");
             }
-            fn touch(&self, k: &K) {
+            fn touch<Q>(&self, k: &Q)
+            where K: core::borrow::Borrow<Q>, Q: $($kb)* + ToOwned<Owned = K> + ?Sized,
+            {
                 if self.havoc && !self.t().contains(k) {
-                    self.t().insert(k.clone());
+                    self.t().insert(k.to_owned());
                     if any_bool() {
-                        self.m().insert(k.clone());
+                        self.m().insert(k.to_owned());
                     }
                 }
             }
             pub fn insert(&mut self, k: K) -> bool { self.touch(&k); self.m().insert(k) }
-            pub fn remove(&mut self, k: &K) -> bool { self.touch(k); self.m().remove(k) }
-            pub fn contains(&self, k: &K) -> bool { self.touch(k); self.m().contains(k) }
+            pub fn remove<Q>(&mut self, k: &Q) -> bool
+            where K: core::borrow::Borrow<Q>, Q: $($kb)* + ToOwned<Owned = K> + ?Sized,
+            { self.touch(k); self.m().remove(k) }
+            pub fn contains<Q>(&self, k: &Q) -> bool
+            where K: core::borrow::Borrow<Q>, Q: $($kb)* + ToOwned<Owned = K> + ?Sized,
+            { self.touch(k); self.m().contains(k) }
             pub fn iter(&self) -> sc::$modname::Iter<'_, K> { self.no_havoc(); self.m().iter() }
             pub fn len(&self) -> usize { self.no_havoc(); self.m().len() }
             pub fn is_empty(&self) -> bool { self.no_havoc(); self.m().is_empty() }
             pub fn clear(&mut self) { self.havoc = false; self.m().clear(); self.t().clear(); }
             pub fn retain<F: FnMut(&K) -> bool>(&mut self, f: F) { self.no_havoc(); self.m().retain(f) }
         }
-        impl<K: $($kb)*> IntoIterator for $Set<K> {
+        impl<K: $($kb)* + Clone> IntoIterator for $Set<K> {
             type Item = K;
             type IntoIter = sc::$modname::IntoIter<K>;
             fn into_iter(self) -> Self::IntoIter { self.no_havoc(); self.inner.into_inner().into_iter() }
         }
-        impl<K: $($kb)*> Extend<K> for $Set<K> {
+        impl<K: $($kb)* + Clone> Extend<K> for $Set<K> {
             fn extend<T: IntoIterator<Item = K>>(&mut self, iter: T) {
                 for k in iter { self.insert(k); }
             }
         }
-        impl<K: $($kb)*> FromIterator<K> for $Set<K> {
+        impl<K: $($kb)* + Clone> FromIterator<K> for $Set<K> {
             fn from_iter<T: IntoIterator<Item = K>>(iter: T) -> Self {
                 let mut s = Self::new();
                 s.extend(iter);
@@ -176,5 +192,5 @@ macro_rules! replay_set {
         }
     };
 }
-replay_set!(BTreeSet, BTreeSet, btree_set, [Ord + Clone]);
-replay_set!(HashSet, HashSet, hash_set, [core::hash::Hash + Eq + Clone]);
+replay_set!(BTreeSet, BTreeSet, btree_set, [Ord]);
+replay_set!(HashSet, HashSet, hash_set, [core::hash::Hash + Eq]);
